@@ -1,5 +1,6 @@
 import Ptk.Proto
 import Ptk.Model.C05
+import Ptk.Model.C05SkelGen
 open Ptk Ptk.Py Ptk.Proto Ptk.C05
 
 /-! Line-protocol driver for the C05 model.
@@ -11,6 +12,13 @@ open Ptk Ptk.Py Ptk.Proto Ptk.C05
   `hop <hop>`                                        one handler op applied directly
   `hbegin <saveBefore>` / `h <hop>` / `hend`         `_call_handler` with the collected program
   `accept <N|int>`                                   `validate_and_handle` (validator result)
+
+  mode skeleton (Ptk.Model.C05Skel, table = Ptk.Gen.C05Bindings resolved by name):
+  `skhello`                                          table hash, sizes
+  `skset <skeleton>`                                 set the skeleton state
+  `skkey <key> <dc> <flush> <env> <n> {<hd> <env>}*`  feed one key; `env` = bit string over the atom list,
+                                                     `hd` = 8 bits tc0 tc1 ro anchor done moved atAnchor textEmpty
+     reply: `<skeleton> h=<handler ids called> a=<values of the skeleton-evaluated atoms>`
 -/
 
 structure D where
@@ -18,6 +26,8 @@ structure D where
   b1 : Buf
   prog : List HOp
   save : Bool
+  sk : Skel.Sk
+
 
 def emptyBuf : Buf :=
   { lines := [[]], idx := 0, cur := 0, sel := none, multi := [], undo := [], redo := [],
@@ -118,6 +128,66 @@ def parseInit (rest : List String) : Option Buf := do
     | _ => none
   | _ => none
 
+namespace SkD
+open Skel
+
+def tbl : Tbl := genTblByName
+
+def encSel : Option SelS → String
+  | none => "N"
+  | some x => (match x.typ with | .characters => "0" | .lines => "1" | .block => "2") ++ encBool x.shift
+def decSel (tok : String) : Option (Option SelS) :=
+  match tok with
+  | "N" => some none
+  | "00" => some (some ⟨.characters, false⟩) | "01" => some (some ⟨.characters, true⟩)
+  | "10" => some (some ⟨.lines, false⟩) | "11" => some (some ⟨.lines, true⟩)
+  | "20" => some (some ⟨.block, false⟩) | "21" => some (some ⟨.block, true⟩)
+  | _ => none
+def encOB : Option Bool → String
+  | none => "N" | some b => encBool b
+def decOB (tok : String) : Option (Option Bool) :=
+  if tok == "N" then some none else (decBool tok).map some
+
+def encKeys (l : List KeyP) : String :=
+  toString l.length ++ l.foldl (fun acc k => acc ++ s!" {k.key} {k.dc}") ""
+
+def encSk (s : Sk) : String :=
+  s!"{encBool s.vi} {encBool s.ro} {encMode s.mode} {encBool s.tempNav} {encOB s.op} {encBool s.opArg} {encBool s.dgWait} {encBool s.dg1} {encSel s.sel0} {encSel s.sel1} {encBool s.searching} {encBool s.quoted} {encOB s.recording} {encBool s.emacsRec} {encOB s.arg} {encBool s.done} {encKeys s.keyBuf}"
+
+def decKeys : List String → Option (List KeyP)
+  | [] => some []
+  | k :: d :: rest => do pure (⟨← decNat k, ← decNat d⟩ :: (← decKeys rest))
+  | _ => none
+
+def decSk (toks : List String) : Option Sk :=
+  match toks with
+  | vi :: ro :: m :: tn :: op :: oa :: dw :: d1 :: s0 :: s1 :: se :: q :: rc :: er :: ar :: dn :: _n :: keys => do
+    pure { vi := (← decBool vi), ro := (← decBool ro), mode := (← decMode m), tempNav := (← decBool tn),
+           op := (← decOB op), opArg := (← decBool oa), dgWait := (← decBool dw), dg1 := (← decBool d1),
+           sel0 := (← decSel s0), sel1 := (← decSel s1), searching := (← decBool se), quoted := (← decBool q),
+           recording := (← decOB rc), emacsRec := (← decBool er), arg := (← decOB ar), done := (← decBool dn),
+           keyBuf := (← decKeys keys), queue := [] }
+  | _ => none
+
+def decBits (tok : String) : List Bool := tok.toList.map (· == '1')
+
+def decHd (tok : String) : HData :=
+  match decBits tok with
+  | [a, b, c, d, e, f, g, h] =>
+    { tc0 := a, tc1 := b, roRaised := c, anchorWritten := d, done := e, moved := f, atAnchor := g, textEmpty := h }
+  | _ => HData.none
+
+def decCalls : List String → List HData × List Env
+  | hd :: env :: rest => let (a, b) := decCalls rest; (decHd hd :: a, decBits env :: b)
+  | _ => ([], [])
+
+def encAtoms (s : Sk) : String :=
+  String.ofList (tbl.atoms.map fun a => match a with | .env => '-' | a => if evalAtomSk s a then '1' else '0')
+
+def encIds (l : List Nat) : String := ",".intercalate (l.map toString)
+
+end SkD
+
 def stepLine (d : D) (toks : List String) : D × String :=
   match toks with
   | "init" :: k :: rest =>
@@ -165,8 +235,22 @@ def stepLine (d : D) (toks : List String) : D × String :=
       let (b, r) := validateAndHandle (fun _ _ => v) d.app.buf
       ({ d with app := { d.app with buf := b } }, s!"{encOptStr r} {encBuf b}")
     | none => (d, "bad-op")
+  | ["skhello"] =>
+    (d, s!"{Gen.C05.tableHash} {SkD.tbl.bindings.length} {SkD.tbl.atoms.length} {SkD.tbl.classes.length} {Gen.C05.anyKey} {Gen.C05.enterKey}")
+  | "skset" :: rest =>
+    match SkD.decSk rest with
+    | some s => ({ d with sk := s }, SkD.encSk s)
+    | none => (d, "bad-op")
+  | "skkey" :: k :: dc :: fl :: env0 :: _n :: rest =>
+    match decNat k, decNat dc, decBool fl with
+    | some k, some dc, some fl =>
+      let (hds, envs) := SkD.decCalls rest
+      let ki : Skel.KeyIn := { key := ⟨k, dc⟩, flush := fl, envs := SkD.decBits env0 :: envs, hds := hds }
+      let r := Skel.feed SkD.tbl d.sk ki
+      ({ d with sk := r.s }, s!"{SkD.encSk r.s} h={SkD.encIds r.calls} a={SkD.encAtoms r.s}")
+    | _, _, _ => (d, "bad-op")
   | _ => (d, "bad-op")
 
 def main : IO Unit :=
   runS stepLine { app := { buf := emptyBuf, vi := vi0, viMode := true, arg := none }, b1 := emptyBuf,
-                  prog := [], save := false }
+                  prog := [], save := false, sk := Skel.Sk.init true false }
